@@ -25,6 +25,7 @@ type stallClock struct {
 	gid     atomic.Uint64 // only this goroutine (the racing writer) is stalled
 	stalled chan struct{}
 	resume  chan struct{}
+	late    atomic.Bool // the stalled call returns the time at which it resumes (a clock that is read after the stall)
 }
 
 func (c *stallClock) NowNano() int64 {
@@ -32,6 +33,9 @@ func (c *stallClock) NowNano() int64 {
 	if c.armed.Load() && verifkit.GoID() == c.gid.Load() && c.armed.CompareAndSwap(true, false) {
 		c.stalled <- struct{}{}
 		<-c.resume
+		if c.late.Load() {
+			v = c.now.Load()
+		}
 	}
 	return v
 }
@@ -619,6 +623,79 @@ func runStaleEvictLoad(sc sweepScenario) sweepResult {
 	return res
 }
 
+// runLateSweep (C13, "however the entry's write raced with earlier maintenance"): a maintenance run is parked inside the clock
+// (expireNodes is about to read it); a write samples the clock, stores its entry and returns; the clock jumps; the parked run
+// reads the later time and sweeps without knowing the entry; the entry's event is replayed afterwards, in the same tick as that
+// sweep.  A quiescent CleanUp half a tick later - more than a tick after both the deadline and the return of the write - must
+// find the entry gone and reported.
+func runLateSweep(sc sweepScenario) sweepResult {
+	res := sweepResult{T: "sweep", Sc: sc, TickNs: 1 << 30}
+	clk := &stallClock{never: make(chan time.Time), stalled: make(chan struct{}), resume: make(chan struct{})}
+	clk.now.Store(int64(5) << 30)
+	clk.late.Store(true)
+	var mu sync.Mutex
+	o := &Options[int, int]{
+		Clock:            clk,
+		ExpiryCalculator: ExpiryWriting[int, int](time.Duration(sc.TTL)),
+		OnDeletion: func(e DeletionEvent[int, int]) {
+			if e.Key != 1 {
+				return
+			}
+			mu.Lock()
+			if e.Cause == CauseExpiration {
+				res.Expired++
+			} else {
+				res.Other++
+			}
+			mu.Unlock()
+		},
+	}
+	if sc.Sized == 1 {
+		o.MaximumSize = 100
+	}
+	if sc.SyncExec == 1 {
+		o.Executor = func(fn func()) { fn() }
+	}
+	c := Must(o)
+	defer c.StopAllGoroutines()
+	c.CleanUp()
+	m1 := make(chan struct{})
+	go func() {
+		defer close(m1)
+		clk.gid.Store(verifkit.GoID())
+		clk.armed.Store(true)
+		c.CleanUp() // parks inside the clock read of expireNodes
+	}()
+	select {
+	case <-clk.stalled:
+	case <-time.After(3 * time.Second):
+		res.Hang = 1
+		return res
+	}
+	c.Set(1, 11) // samples the clock, stores, returns; its event waits in the write buffer
+	clk.now.Add(sc.Jump)
+	clk.resume <- struct{}{}
+	select {
+	case <-m1:
+	case <-time.After(3 * time.Second):
+		res.Hang = 1
+		return res
+	}
+	for i := 0; i < 300 && c.cache.drainStatus.Load() != idle; i++ { // default executor: the follow-up run the first one asked for
+		time.Sleep(time.Millisecond)
+	}
+	time.Sleep(3 * time.Millisecond)
+	res.EstMid = c.EstimatedSize()
+	clk.now.Add(sc.Later) // less than a tick: still the tick of the sweep above
+	c.CleanUp()           // the quiescent run the property speaks of
+	time.Sleep(2 * time.Millisecond)
+	res.Est = c.EstimatedSize()
+	time.Sleep(2 * time.Millisecond)
+	mu.Lock()
+	defer mu.Unlock()
+	return res
+}
+
 type sweepResult struct {
 	T       string        `json:"t"`
 	Sc      sweepScenario `json:"sc"`
@@ -746,6 +823,10 @@ func TestVerifSweep(t *testing.T) {
 	defer w.Flush()
 	enc := json.NewEncoder(w)
 	for _, sc := range scs {
+		if len(sc.Op) > 5 && sc.Op[:5] == "late." {
+			_ = enc.Encode(runLateSweep(sc))
+			continue
+		}
 		if len(sc.Op) > 3 && sc.Op[:3] == "ld." {
 			_ = enc.Encode(runStaleEvictLoad(sc))
 			continue
